@@ -12,6 +12,7 @@ mod pdbtext;
 mod rng;
 mod st;
 mod c01;
+mod c05;
 mod c07;
 mod pdbio;
 mod c08;
@@ -116,6 +117,7 @@ fn gen(prop: &str, tier: &str, seed: u64) -> Vec<String> {
     let mut r = rng::Rng::new(seed, prop);
     match prop {
         "C01" => c01::gen(tier, &mut r),
+        "C05" => c05::gen(tier, &mut r),
         "C07" => c07::gen(tier, &mut r),
         "C08" => c08::gen(tier, &mut r),
         "C09" => c09::gen(tier, &mut r),
@@ -134,6 +136,7 @@ fn gen(prop: &str, tier: &str, seed: u64) -> Vec<String> {
 fn exec(prop: &str, case: &str) -> Exec {
     match prop {
         "C01" => c01::exec(case),
+        "C05" => c05::exec(case),
         "C07" => c07::exec(case),
         "C08" => c08::exec(case),
         "C09" => c09::exec(case),
